@@ -77,6 +77,10 @@ def rearm(ctx: Any) -> List[Ob]:
                 continue  # residual sites: side conditions are decided under C15.ESCAPE
             live.append((k, o))
         obs.append(ob(R, f, f'{f.qual} may-raise set', 'no exception can leave the callback before the timer is re-armed', not live, '; '.join(k.split('.')[-1] for k, _ in live), live[0][1].describe() if live else None))
+    # the scheduler can only move a refresh query if it is told of the refresh: the record manager reports every live record
+    from .c06 import pair_per_live_record
+
+    obs.extend(pair_per_live_record(ctx, R))
     return obs
 
 
